@@ -133,14 +133,34 @@ fn exec_line<V: Variant>(
                     _ => 6,
                 };
                 rep.count(&format!("transition:tail{}:piece{}", tail_before, class), 1);
-                g.update(&line.data[pos..pos + n]);
+                if (prefix.len() + n) % 16 == 5 {
+                    // the generator is handed to another thread for this piece: results must not
+                    // depend on which thread feeds or finalizes (no thread-local or global state)
+                    let piece = &line.data[pos..pos + n];
+                    std::thread::scope(|s| {
+                        let _ = s.spawn(|| g.update(piece)).join();
+                    });
+                    rep.count("updates_on_another_thread", 1);
+                } else {
+                    g.update(&line.data[pos..pos + n]);
+                }
                 prefix.extend_from_slice(&line.data[pos..pos + n]);
                 pos += n;
             }
             Op::Finalize(o, check) => {
-                let got = g
-                    .finalize_with_options(&options(Opts(*o)))
-                    .map(|h| V::parts(&h));
+                let got = if prefix.len() % 4 == 1 {
+                    rep.count("finalize_on_another_thread", 1);
+                    let gr: &V::G = g;
+                    let o = *o;
+                    std::thread::scope(|s| {
+                        s.spawn(move || gr.finalize_with_options(&options(Opts(o))).map(|h| V::parts(&h)))
+                            .join()
+                            .unwrap_or(Err(GeneratorError::TooLargeInput))
+                    })
+                } else {
+                    g.finalize_with_options(&options(Opts(*o)))
+                        .map(|h| V::parts(&h))
+                };
                 rep.count("interleaved_finalize", 1);
                 if *check {
                     let fresh = single_shot::<V>(prefix);
@@ -408,6 +428,8 @@ pub fn run(ctx: &Ctx, rep: &mut Report) {
         }
         rep.floor("forks", 10);
         rep.floor("forks_by_clone_from", 10);
+        rep.floor("updates_on_another_thread", 10);
+        rep.floor("finalize_on_another_thread", 10);
         rep.floor("interleaved_finalize", 10);
     }
 }
